@@ -33,7 +33,7 @@ func ParseATx(v interface{}) ATx {
 //
 //	none/0: cnt++ and LOG1; 1: REVERT; 2: memory expansion beyond the gas budget; 3: return cnt;
 //	4: infinite loop; 5: CALL 0xfe with calldata[1:]
-var CounterInit, _ = hex.DecodeString("608c80600b6000396000f360003560001a8060011460455780600214604b5780600314605557806004146061578060051460655780600614607e576000546001018060005560005260aa60206000a1005b60006000fd5b6001633fffffff52005b60005460005260206000f35b6061565b36600060003760006000600136036001600060fe5af150005b436000524260205260406000f3")
+var CounterInit, _ = hex.DecodeString("60b080600b6000396000f360003560001a80600114604c578060021460525780600314605c578060041460685780600514606c5780600614608557806007146093576000546001018060005560005260aa60206000a1005b60006000fd5b6001633fffffff52005b60005460005260206000f35b6068565b36600060003760006000600136036001600060fe5af150005b436000524260205260406000f35b60785b6000600060006000600160046000f150600190038060965700")
 
 var (
 	PlainTo   = common.HexToAddress("0x00000000000000000000000000000000000d00d5")
@@ -68,6 +68,8 @@ func NumVariants(c string) int {
 		return 11
 	case "createfail":
 		return 5
+	case "createcalls":
+		return 4
 	case "admok":
 		return 3
 	case "admcall":
@@ -105,6 +107,12 @@ func Concretize(t ATx, variant int) []byte {
 			{0x60, 0x07, 0x56}, // JUMP to a non-JUMPDEST
 		}
 		return SignedTx(k, t.N, nil, 0, gas, 0, inits[variant])
+	case "createcalls":
+		// contract creation whose init code makes many value-bearing calls (the creating contract has no balance:
+		// every call fails with its 2300 gas stipend handed back), then STOPs: an ordinary valid creation
+		return SignedTx(k, t.N, nil, 0, 1000000, 0, ValueCallsInit(variant))
+	case "valuecalls":
+		return SignedTx(k, t.N, &tgt, 0, gas, 0, []byte{7})
 	case "call":
 		return SignedTx(k, t.N, &tgt, 0, gas, 0, nil)
 	case "revert":
@@ -219,12 +227,43 @@ func Concretize(t ATx, variant int) []byte {
 	panic("unknown tx class " + t.C)
 }
 
+// ValueCallsInit is init code that performs many value-bearing calls and deploys nothing:
+//
+//	0: 60 x CALL(gas 0, to 0x04, value 1) unrolled;  1: the same with CALLCODE;  2: 40 x CALL to a plain address with gas 5000;
+//	3: a loop of 200 CALLs
+func ValueCallsInit(variant int) []byte {
+	one := func(op byte, to byte, g byte) []byte {
+		return []byte{0x60, 0x00, 0x60, 0x00, 0x60, 0x00, 0x60, 0x00, 0x60, 0x01, 0x60, to, 0x61, g, 0x00, op, 0x50}
+	}
+	var code []byte
+	switch variant % 4 {
+	case 0:
+		for i := 0; i < 60; i++ {
+			code = append(code, one(0xf1, 0x04, 0)...)
+		}
+	case 1:
+		for i := 0; i < 60; i++ {
+			code = append(code, one(0xf2, 0x04, 0)...)
+		}
+	case 2:
+		for i := 0; i < 40; i++ {
+			code = append(code, one(0xf1, 0xd5, 0x13)...)
+		}
+	case 3:
+		// PUSH1 200 ; JUMPDEST ; CALL... POP ; PUSH1 1 SWAP1 SUB DUP1 PUSH1 2 JUMPI
+		code = []byte{0x60, 200, 0x5b}
+		code = append(code, one(0xf1, 0x04, 0)...)
+		code = append(code, 0x60, 0x01, 0x90, 0x03, 0x80, 0x60, 0x02, 0x57)
+	}
+	return append(code, 0x00)
+}
+
 // ExpectStatus is the receipt status the specification prescribes (nil: not determined by the model);
 // targetLive tells whether the counter contract exists when the transaction runs.
 func ExpectStatus(c string, targetLive bool) *bool {
 	t, f := true, false
 	switch c {
-	case "xfer", "create", "call", "admok":
+	case "xfer", "create", "call", "admok", "createcalls", "valuecalls":
 		return &t
 	case "revert", "oog", "loop":
 		if targetLive {
